@@ -471,9 +471,9 @@ func c10Guard(f func()) (msg string) {
 	select {
 	case m := <-done:
 		return m
-	case <-time.After(10 * time.Second):
+	case <-time.After(6 * time.Second):
 		c10Hangs++
-		return "the call did not return within 10 s (endless loop)"
+		return "the call did not return within 6 s (endless loop)"
 	}
 }
 
